@@ -52,7 +52,7 @@ var strDomainRT = []string{"", "a", "<&>\"\\", "  ", "abcdefgh\n\x01\x7f", "
 var numDomain = []string{"1", "", "-1.5e3", "0"}
 var badNumbers = []string{"1.", "+1", "--", "1e", "01", " 1", "1 ", "a", "\"", ".5", "-", "0x1", "1e+", "NaN", "1,2"}
 
-var rawDomain = []string{`{"a": 1}`, ``, `[1, 2]`, `null`, `"s"`}
+var rawDomain = []string{`{"a": 1}`, ``, `[1, 2]`, `null`, `"s"`, " {\"a\":[1 ,2]}\n "}
 
 var fixedTime = time.Unix(1, 5).UTC()
 
